@@ -743,12 +743,20 @@ def r911(ctx):
     forw = [e for e in eps if "forw" in e[0]]
     if len(back) != 1 or len(forw) != 1:
         raise AnalysisError("R-9.11: path_back / path_forw = empty_path(maxlen=...) not found in shoot")
-    bl = lin(back[0][2])
+    def lin_arg(e, at_stmt):
+        """a budget held in a local (`maxlen_forw = maxlen - path_back.length + 1`) is the same budget"""
+        if isinstance(e, ast.Name) and e.id != mname:
+            e2, _ = deref(fl, e, fl.cfg.node_of(at_stmt))
+            if e2 is not e:
+                return lin(e2)
+        return lin(e)
+
+    bl = lin_arg(back[0][2], back[0][1])
     if bl == {mname: 1, 1: -1}:
         ctx.ok(rid, back[0][1], "shoot: backward budget = maxlen - 1 (the forward part needs at least one step)")
     else:
         ctx.bad(rid, back[0][1], f"shoot: the backward segment may take `{short(back[0][2], 30)}` frames, not maxlen - 1: the pasted path can exceed the Metropolis length limit (or is cut one short)", construct="shoot: backward budget " + short(back[0][2], 30))
-    fw = lin(forw[0][2])
+    fw = lin_arg(forw[0][2], forw[0][1])
     if fw == {mname: 1, f"{back[0][0]}.length": -1, 1: 1}:
         ctx.ok(rid, forw[0][1], "shoot: forward budget = maxlen - len(back) + 1 (the shooting point is shared): back + forward - 1 <= maxlen")
     else:
